@@ -20,3 +20,12 @@ Proof. destruct o; reflexivity. Qed.
 (* the known finding, pinned: a non-finite literal does not survive (JSON null) *)
 Theorem C12_refuted_nonfinite : exists e, deser_expr 5 (ser_expr e) = None.
 Proof. exists (ELit (VNum B754_nan)). exact Json.C12_refuted_nonfinite. Qed.
+
+(* "Consequently the reloaded tree validates, optimizes and executes exactly like the original": whatever comes back from the round trip of a finite tree IS the tree, so every function of it agrees *)
+Require Import Lang Opt IO.
+Theorem C12_reloaded_behaves_alike : forall e fuel e', fin_expr e = true -> (depth e <= fuel)%nat -> deser_expr fuel (ser_expr e) = Some e' ->
+  forall E, eval_t E e' = eval_t E e /\ check_names E e' = check_names E e /\ check_bool e' = check_bool e /\ (forall k acc, optimize_t E k e' acc = optimize_t E k e acc).
+Proof.
+  intros e fuel e' Hf Hd H E. rewrite (C12_roundtrip e fuel Hf Hd) in H. injection H as <-. repeat split; reflexivity.
+Qed.
+Print Assumptions C12_reloaded_behaves_alike.
